@@ -57,6 +57,49 @@ Proof.
   rewrite (G B (le_n B)). fold b. lia.
 Qed.
 
+Lemma zsum_plus f g n : zsum (fun k => f k + g k) n = zsum f n + zsum g n.
+Proof. induction n as [|n IH]; [reflexivity|]. rewrite !zsum_S, IH. ring. Qed.
+
+Lemma zsum_scale a f n : zsum (fun k => a * f k) n = a * zsum f n.
+Proof. induction n as [|n IH]; [cbn; ring|]. rewrite !zsum_S, IH. ring. Qed.
+
+Lemma zsum_zero n : zsum (fun _ => 0) n = 0.
+Proof. induction n as [|n IH]; [reflexivity|]. rewrite zsum_S, IH. ring. Qed.
+
+Lemma zsum_swap (g : nat -> nat -> Z) n m :
+  zsum (fun k => zsum (fun i => g i k) n) m = zsum (fun i => zsum (fun k => g i k) m) n.
+Proof.
+  induction m as [|m IH].
+  - cbn [zsum seq fold_right]. symmetry. apply zsum_zero.
+  - rewrite zsum_S, IH. rewrite <- zsum_plus. apply zsum_ext. intros i _. rewrite zsum_S. reflexivity.
+Qed.
+
+Lemma zsum_pick (f : nat -> Z) j n : (j < n)%nat ->
+  zsum (fun i => f i * (if Nat.eqb i j then 1 else 0)) n = f j.
+Proof.
+  induction n as [|n IH]; intros Hj; [lia|]. rewrite zsum_S.
+  destruct (Nat.eqb_spec n j) as [E|E].
+  - subst n. rewrite (zsum_ext _ (fun _ => 0)).
+    + rewrite zsum_zero. ring.
+    + intros k Hk. destruct (Nat.eqb_spec k j); [lia|ring].
+  - rewrite IH by lia. ring.
+Qed.
+
+(** sum of a test function over the selected ancestors, grouped by particle *)
+Definition fsum (f : nat -> Z) (idx : list nat) : Z := fold_right (fun j acc => f j + acc) 0 idx.
+
+Lemma fsum_by_copies (f : nat -> Z) (n : nat) (idx : list nat) :
+  Forall (fun j => (j < n)%nat) idx ->
+  fsum f idx = zsum (fun i => f i * Z.of_nat (copies idx i)) n.
+Proof.
+  induction 1 as [|j idx Hj _ IH].
+  - cbn [fsum fold_right]. rewrite (zsum_ext _ (fun _ => 0)); [symmetry; apply zsum_zero|].
+    intros i _. unfold copies. cbn. ring.
+  - change (fsum f (j :: idx)) with (f j + fsum f idx). rewrite IH.
+    rewrite <- (zsum_pick f j n Hj), <- zsum_plus. apply zsum_ext. intros i _.
+    unfold copies. cbn [filter]. destruct (Nat.eqb i j); cbn [length]; lia.
+Qed.
+
 Section Unbiased.
   Variables (ws : list Z) (N : nat) (c : nat).
   Hypothesis Hws : Forall (fun w => 0 <= w) ws.
@@ -106,4 +149,19 @@ Section Unbiased.
   Corollary systematic_mean_copies i : (i < length ws)%nat ->
     T * zsum (copies_at i) B = Z.of_nat B * (Z.of_nat N * nth i ws 0).
   Proof. intros Hi. rewrite (systematic_unbiased_on_grid i Hi), B_val. ring. Qed.
+  (** the estimate: over the grid, the sum of any test function over the resampled particles sums to
+      c * N * sum_i f(i) w_i - its mean over the grid is N times the weighted average before resampling *)
+  Theorem systematic_estimate_on_grid (f : nat -> Z) :
+    zsum (fun k => fsum f (sys_indices ws N (2 * Z.of_nat k + 1) (2 * Z.of_nat B))) B
+    = Z.of_nat c * Z.of_nat N * zsum (fun i => f i * nth i ws 0) (length ws).
+  Proof.
+    pose proof B_pos as HB.
+    rewrite (zsum_ext _ (fun k => zsum (fun i => f i * copies_at i k) (length ws)) B).
+    - rewrite zsum_swap.
+      rewrite (zsum_ext _ (fun i => (Z.of_nat c * Z.of_nat N) * (f i * nth i ws 0)) (length ws)).
+      + apply zsum_scale.
+      + intros i Hi. rewrite zsum_scale, (systematic_unbiased_on_grid i Hi). ring.
+    - intros k Hk. unfold copies_at. apply fsum_by_copies.
+      apply sys_indices_in_range; try assumption. lia.
+  Qed.
 End Unbiased.
